@@ -178,3 +178,8 @@ pub proof fn lemma_peval_trailing_zeros(c: Seq<FS>, x: FS, m: nat, n: nat)
     broadcast use ring_axioms;
     if n > m { lemma_peval_trailing_zeros(c, x, m, (n - 1) as nat); lemma_mul_zero(f_pow(x, (n - 1) as nat)); }
 }
+pub proof fn lemma_peval_zero(c: Seq<FS>, x: FS, n: nat)
+    requires n <= c.len(), forall|i: int| 0 <= i < n ==> c[i] == f_zero()
+    ensures peval(c, x, n) == f_zero()
+    decreases n
+{ broadcast use ring_axioms; if n > 0 { lemma_peval_zero(c, x, (n - 1) as nat); lemma_mul_zero(f_pow(x, (n - 1) as nat)); } }
